@@ -7,6 +7,8 @@ Definition str_step (s : istr) (o : op) : res istr := C04.Model.step s o.
 Definition str_pre_ok (s : istr) (o : op) : bool := C04.Total.pre_ok s o.
 (* spec leg of the correspondence run: the documented precondition of the abstract value (SpecString.v) *)
 Definition str_pre_doc (size capacity : Z) (o : op) : bool := pre_doc size capacity o.
+(* the same plus [string.append]/[string.assign]/[string.cons] pos <= str.size() (see SpecString.v, known finding) *)
+Definition str_pre_std (size capacity : Z) (o : op) : bool := pre_std size capacity o.
 Definition str_make (c : Z) (src : list Z) (len : Z) : res istr := ctor_ptr c CChar src len.
 Definition str_ctor_fill (c count ch : Z) : res istr := ctor_fill c CChar count ch.
 Definition str_make_w (c : Z) (src : list Z) (len : Z) : res istr := ctor_ptr c CWchar src len.
